@@ -76,6 +76,28 @@ CLAIMS = {
  'C19': dict(
    text='Theorems C19_disabled_statement_is_noop, C19_enabled_statement_one_event, C19_change_takes_effect (Coq, closed) on the statement model, instantiated with facts read off the macro headers: all 24 named macros expand to BINLOG_CREATE_SOURCE_AND_EVENT_IF whose comparison encloses source creation, argument evaluation and the event; the minimum is an atomic stored with release / loaded with acquire. Tied by the exhaustive product 8 sites x 9 thresholds x {first, repeated} on the real macros with evaluation counters, plus random histories.',
    note=NOTE_COMMON + 'the stand-ins of harness/drv_session.cpp (atomic, mutex, shared_ptr with libstdc++ orders, fence); the session model keeps one source id per statement site; per-channel delivery is C01.', design='4/C19', technique='Coq proof on the log-statement model + source-derived macro structure; exhaustive differential product'),
+ 'C04': dict(
+   text='Theorems C04_encode_is_documented (the recursive serializer of the model emits exactly the documented wire format spec_enc for every well-typed value of every type of the universe: arithmetic, enums, '
+        'sequences incl. strings/arrays/maps-as-pairs, tuples, optionals/pointers, variants, structs, nested to any depth), C04_size_exact (serialized_size equals the number of bytes written, for all of them) and '
+        'C04_event_within_reservation (an event written by addEvent stays inside the queue reservation computed from serialized_size) - Coq, closed, unbounded. Tied on every run by GENERATED C++ programs: random type '
+        'descriptions are rendered both as model terms and as real C++ types (MSERIALIZE_MAKE_STRUCT_*, std containers, smart pointers, optional, variant), compiled against /repo, and bytes / sizes compared with the extracted model; '
+        'the implementation alone is also compared with an independent python rendering of the documented format.',
+   note=NOTE_COMMON + 'tools/gen_mser.py (renders one description two ways); template dispatch is the compiler\'s; floating point values are carried as raw bit patterns; user-defined CustomSerializer specialisations other than those shipped are outside the universe.',
+   design='4/C04', technique='Coq proof by induction over a type/value universe (custom nested induction principle) + generated-program differential correspondence'),
+ 'C05': dict(
+   text='Theorems C05_decode_encode (deserialize(serialize(v)) = v with the rest of the input untouched, every deserializable type), C05_decode_compatible (a value serialized as one type deserializes as any tag-compatible type: '
+        'vector/deque/list/array/set of the same element, pair/tuple, optional/pointer), C05_truncated_input_fails (EVERY proper prefix of a serialization is rejected with an error, never a value), '
+        'C05_fixed_size_mismatch_fails (a sequence whose size differs from a fixed-extent destination is rejected) - Coq, closed, unbounded. Tied by the same generated programs: round trip, every truncation point of every case, '
+        'cross-type deserialization, on the implementation and on the model.',
+   note=NOTE_COMMON + 'as C04; destination containers with set semantics (std::set/map) are compared after canonicalisation; nested maps are serialize-only (the library does not compile their deserializer).',
+   design='4/C05', technique='Coq round-trip proof over the type/value universe, prefix-rejection lemma by induction; generated-program differential correspondence'),
+ 'C06': dict(
+   text='Theorems C06_tag_wellformed (tag<T>() of every type of the universe is a well-formed tag of the documented grammar), C06_tag_pop_tag / C06_tag_pop_concat (the tag tokenizer splits a concatenation of tags exactly at '
+        'the boundaries, names with balanced brackets included) - Coq, closed, unbounded - and C06_visit_agrees_partial: for every value of every SIMPLE type (arithmetic, sequences of at most 32 elements, tuples, optionals, variants, non-empty structs; '
+        'PARTIAL: enums, empty structs, recursive hand-written tags and the >32-element repeat collapsing are not in the theorem), visit(tag(t), bytes(v)) with recursion budget 2048 reports exactly callbacks(t, v) and consumes exactly the value. '
+        'The parts outside the theorem are tied by correspondence only: generated programs (tag, full callback sequence, ToString text) and hand-written recursive tags with prefix-related struct names, plus corrupted tags/bytes, run through mserialize::visit and the model.',
+   note=NOTE_COMMON + 'as C04; the visit theorem is partial as stated; string-level name resolution of recursive struct references is modelled (resolve_recursive) and executed against the code but not covered by a theorem.',
+   design='4/C06', technique='Coq proof on string-level tag tokenizer and visitor interpreter (fuelled, fuel = the code\'s recursion limit) + generated-program and hand-written-tag differential correspondence'),
 }
 REASON_NOT_BUILT = 'not built yet in this round: no theorem/correspondence for it is registered; not claimed at a lower level by another technique'
 m = {'version': 1, 'setup_cmd': './setup.sh',
